@@ -102,7 +102,7 @@ def ref(filepath):
 
 REF_VISIT = '''
 def ref(group, func, level=None):
-    def _visititems(node, path, func, result=None):
+    def _visititems(node, path, func, result=None, ancestors=()):
         children = node.get_children()
         if children:
             for key, child in zip(node.obj.keys(), children):
@@ -110,11 +110,13 @@ def ref(group, func, level=None):
                     continue
                 name = path.rstrip("/") + "/" + key
                 result[name] = func(name, child.obj)
-                _visititems(child, name, func, result)
+                if child.obj.id in ancestors:
+                    continue        # a link back to an enclosing group is reported, not entered again (no endless walk)
+                _visititems(child, name, func, result, (*ancestors, child.obj.id))
         return result
 
     root = TreeNode(group, level=level)
-    return _visititems(root, group.name, func, {})
+    return _visititems(root, group.name, func, {}, (group.id,))
 '''
 
 REF_URI = '''
